@@ -458,6 +458,8 @@ class Executor(object):
                 res = {'rec': canon(e), 'faulted': True}
             except Exception as e:  # noqa: BLE001 - constructor / setter failure is an observation
                 res = {'rec': canon(e), 'opfail': True}
+            if op['op'] in ('call', 'ddiff'):
+                self.sched.call_done[tid] = True
             entry = {'task': tid, 'idx': idx, 'op': op['op']}
             if res:
                 entry.update(res)
